@@ -421,7 +421,7 @@ class Interp:
                 if not isinstance(st.target, ast.Name):
                     raise AnalysisError("unsupported loop target")
                 env[st.target.id] = ElemIndex(st.target.id)
-                self.exec_block(st.body, env, func, depth)
+                self._elem_body(st, env, func, depth)
                 return
             if isinstance(it, ElemIter) or ((self.dom.is_value(it) or _is_conc(it)) and not isinstance(it, (SArr, Vec)) and isinstance(st.target, ast.Name)):
                 # for x in arr / for x, y in zip(a, b) / for c, (x, y) in enumerate(zip(a, b)): the generic entry
@@ -431,7 +431,7 @@ class Interp:
                 if it.enum:
                     item = [ElemIndex("#entry"), item]
                 self.assign(st.target, item, env, func, depth)
-                self.exec_block(st.body, env, func, depth)
+                self._elem_body(st, env, func, depth)
                 return
             if isinstance(it, tuple) and it and it[0] == "rangehook":
                 if not isinstance(st.target, ast.Name):
@@ -459,6 +459,21 @@ class Interp:
                 return
             raise AnalysisError("%s:%d unsupported loop iterable %s" % (func.qualname, st.lineno, unparse(st.iter)))
         raise AnalysisError("%s:%d unsupported statement %s" % (func.qualname, st.lineno, type(st).__name__))
+
+    def _elem_body(self, st, env, func, depth):
+        """body of a loop over the ENTRIES of point-wise arrays, run once for the generic entry.  A `break` anywhere
+        in it (conditional or not) leaves the entries after the first one that meets the condition uncomputed: what
+        entry k holds then depends on the entries before it -- not element-wise.  (`continue` only skips the entry.)"""
+        brk = [n for b in st.body for n in ast.walk(b) if isinstance(n, ast.Break)]
+        inner = [n for b in st.body for l in ast.walk(b) if isinstance(l, (ast.For, ast.While)) for n in ast.walk(l) if isinstance(n, ast.Break)]
+        brk = [n for n in brk if not any(n is m for m in inner)]
+        if brk:
+            self.ev.neighbour_access.append((brk[0].lineno, "break"))
+            raise AnalysisError("%s:%d non point-wise loop: `break` (line %d) ends the loop over the entries at the first entry that meets its condition, so every entry after it keeps its initial value -- the result at one position depends on the values before it" % (func.qualname, st.lineno, brk[0].lineno))
+        try:
+            self.exec_block(st.body, env, func, depth)
+        except _Continue:
+            pass
 
     def merge(self, c, a, b):
         if isinstance(a, list) and isinstance(b, list) and len(a) == len(b):
@@ -636,6 +651,8 @@ class Interp:
             return o
         if node.id in ("abs", "len", "range", "min", "max", "float", "int", "enumerate", "zip", "round", "list", "slice", "getattr", "setattr", "hasattr", "isinstance", "tuple", "dict"):
             return ModuleRef("builtin:" + node.id)
+        if node.id in mod.assigns and isinstance(mod.assigns[node.id], (ast.Dict, ast.List, ast.Tuple, ast.Constant)):
+            return self.eval(mod.assigns[node.id], {}, func, depth)        # a module-level literal (a default table)
         raise AnalysisError("%s:%d unknown name %s" % (func.qualname, node.lineno, node.id))
 
     def _super_class(self, call, env, func, attr):
@@ -839,6 +856,11 @@ class Interp:
             else:
                 raise AnalysisError("unsupported membership test")
             return r if isinstance(op, ast.In) else not r
+        if isinstance(op, (ast.Is, ast.IsNot)) and isinstance(a, str) and isinstance(b, str):
+            e = AnalysisError("%s:%d identity comparison of two strings" % (func.qualname, node.lineno))
+            e.violation = ("STR-IDENTITY", func.qualname, "`%s` (line %d) compares two strings by IDENTITY: true only when both are the same object (interned literals of the source), false for an equal string built at run time (read from a file, `'PER'.lower()`, a numpy str) -- the branch taken depends on how the caller spelled the string, not on its value" % (unparse(node)[:70], node.lineno),
+                           "str-is", {"C01", "C03", "C11", "C13", "C14", "C15", "C16"})
+            raise e
         if isinstance(op, (ast.Is, ast.IsNot)):
             r = (a is b) or (a is None and b is None)
             return r if isinstance(op, ast.Is) else not r
